@@ -324,9 +324,18 @@ Definition C02_check (c : ccase) : verdict :=
             else corr_check proj_writes false c
   end.
 
+(* the cache of a declared child resource holds objects of that resource's type only (two declared
+   resources never share one informer): otherwise the hook is shown objects of an undeclared type *)
+Definition C03_cache_typed (c : ccfg) (k : cache) : option string :=
+  first_some (fun kc =>
+    if forallb (fun o => String.eqb (get_api_version o) (ch_api_version kc) && String.eqb (get_kind o) (ch_kind kc))
+               (cached k (ch_res kc))
+    then None else Some "cache-of-a-child-resource-holds-objects-of-another-type") (kids c).
+
 Definition C03_check := check_with (fun c r =>
-  orelse (C03_round c (r_cache r) (r_events r))
-         (with_parent (fun p => C03_namespace_default c p (r_events r)) r)) proj_hooks false.
+  orelse (C03_cache_typed c (r_cache r))
+    (orelse (C03_round c (r_cache r) (r_events r))
+         (with_parent (fun p => C03_namespace_default c p (r_events r)) r))) proj_hooks false.
 
 (* the claiming rules hold for ControllerRevisions as for children: an orphaned revision is adopted only
    after a fresh, uncached read showed the parent alive with the same UID; a parent being deleted adopts nothing *)
